@@ -10,5 +10,5 @@ trap 'git -C /repo checkout -- . ; git -C /repo status --short | head -3' EXIT
 cd /verif
 for c in "$@"; do
   echo "##### $c with $(basename $(dirname $patch))/$(basename $patch)"
-  timeout 3000 ./check "$c" "${TIER:-quick}" 2>&1 | grep -E "^(VIOLATION|HELD|INCONCLUSIVE|NOTE|KNOWN-FINDING|  sig=|  what=)" | cut -c1-260 | head -12
+  timeout 3000 ./check "$c" "${TIER:-quick}" 2>&1 | grep -E "^(VIOLATION|HELD|INCONCLUSIVE|NOTE|  sig=|  what=)" | cut -c1-260 | head -12
 done
